@@ -87,6 +87,28 @@ def k_alphabet(cfg):
     return sorted(set(ks + edge))
 
 
+# finalize arguments that are not integers.  Only values every reading of C10
+# rejects: below 1, or strictly beyond what the forward has been told to
+# advance to (resp. different from the known max_n).  An accepted non-integral
+# value *inside* the told range is not explored: the statement gives it no
+# meaning (max_n would be no step count).
+FINX = ("half", "beyond", "beyond_np")
+
+
+def finx_value(code, told, max_n):
+    """None when the reference is too large for exact float arithmetic (the
+    value would not really lie beyond it)."""
+    ref = max_n if max_n is not None else told
+    if code != "half" and not (0 <= ref < 2 ** 52):
+        return None
+    if code == "half":
+        return 0.5
+    if code == "beyond":
+        return ref + 0.5
+    import numpy
+    return numpy.float64(ref) + numpy.float64(0.25)
+
+
 def stable(v, depth=0):
     """Address-free representation of a local / attribute value."""
     import enum
@@ -178,7 +200,13 @@ class Replayed:
                 self.told = a.n1
             self.outcomes.append(("action", repr(a)))
             return self.outcomes[-1]
-        k = int(str(ev[1]))      # fresh int object, never identical
+        if ev[0] == "finx":
+            k = finx_value(ev[1], self.told, s.max_n)
+            if k is None:
+                self.outcomes.append(("skipped",))
+                return self.outcomes[-1]
+        else:
+            k = int(str(ev[1]))      # fresh int object, never identical
         pre_max = s.max_n
         try:
             s.finalize(k)
@@ -225,7 +253,8 @@ def explore(cfg, H, check_continuations=True):
     of findings: (props, code, msg, history)."""
     findings = []
     ks = k_alphabet(cfg)
-    events = [("next",), ("iter",)] + [("fin", k) for k in ks]
+    events = [("next",), ("iter",)] + [("fin", k) for k in ks] + \
+        [("finx", c) for c in FINX]
     try:
         R0 = Replayed(cfg, [])
     except Exception as e:  # noqa: BLE001
@@ -316,6 +345,30 @@ def explore(cfg, H, check_continuations=True):
                     finding(["C15", "C09"], "iter_changes_stream",
                             "iter(schedule) changed the subsequent stream",
                             hist + [ev])
+                continue
+            if ev[0] == "finx":
+                # a non-integral argument that must be rejected (with any
+                # exception: a stricter type check is no violation), leaving
+                # state and subsequent stream untouched
+                got = out[0]
+                kx = finx_value(ev[1], pre_told, pre_max)
+                if got == "skipped":
+                    continue
+                if got == "ok":
+                    finding(["C10"], "finalize_outcome",
+                            f"finalize({kx!r}) was accepted (max_n={pre_max}, "
+                            f"told={pre_told})", hist + [ev])
+                if changed:
+                    finding(["C10"], "rejected_finalize_changes_state",
+                            f"finalize({kx!r}) -> {got} changed the schedule "
+                            "state", hist + [ev])
+                elif check_continuations:
+                    n_cont += 1
+                    if continuation(cfg, hist + [ev], L=6) != \
+                            continuation(cfg, hist, L=6):
+                        finding(["C10"], "finalize_changes_stream",
+                                f"finalize({kx!r}) -> {got}: the subsequent "
+                                "stream differs", hist + [ev])
                 continue
             if ev[0] == "fin":
                 k = ev[1]
